@@ -4,7 +4,7 @@ import math
 import numpy as np
 from hypothesis import strategies as st
 
-from vf import gen, refmodel as rm, trajgen, snapshot
+from vf import gen, refmodel as rm, trajgen, snapshot, pairsel
 from vf.core import Mismatch, Sub, Skip
 from vf.checks.c01 import REL, compare_values, tol_for
 
@@ -131,17 +131,60 @@ def _cmp_ratio(got, exp, ref, pairs, kept, scale):
             raise Mismatch("ratio value %d is %r, definition gives %r" % (k, g, e), observed="value", relation="point_distance_error_ratio")
 
 
+def _selection_ambiguous(src, c):
+    """True if some decision of the pair selection rule (walk from pose 0, '>=' on accumulated path / rotation; all-pairs
+    windows) lies within rounding of its threshold on this trajectory"""
+    unit = c["unit"]
+    delta = float(c["delta"])
+    N = src.n
+    if unit == "m":
+        w = rm.step_lengths(src.P)
+        margin = 256 * rm.EPS * (float(np.abs(src.P).max()) + 1.0) * N + 1e-12 * delta
+    else:
+        Rs = src.Rs()
+        w = pairsel.consecutive_angles(Rs)
+        delta = delta if unit == "r" else math.radians(delta)
+        margin = 1e-7
+    if not c["all_pairs"]:
+        last = 0
+        for k in range(1, N):
+            acc = math.fsum(w[last:k])
+            if abs(acc - delta) <= margin:
+                return True
+            if acc >= delta:
+                last = k
+        return False
+    tol = delta * float(c["tol"])
+    if unit == "m":
+        for i in range(N - 1):
+            d = sorted(abs(math.fsum(w[i:j]) - delta) for j in range(i + 1, N))
+            if abs(d[0] - tol) <= 2 * margin or (len(d) > 1 and d[1] - d[0] <= 2 * margin):
+                return True
+        return False
+    for i in range(N):
+        for j in range(i + 1, N):
+            a = rm.rot_angle_between(Rs[i], Rs[j])
+            if abs(a - (delta - tol)) <= margin or abs(a - (delta + tol)) <= margin:
+                return True
+    return False
+
+
 def sub_metamorphic(case):
     """S4: independent rigid motions of ref and est leave values and pairs unchanged; S5: est = T*ref -> zero."""
+    if case["unit"] == "m":
+        # a realised path length as delta is a borderline decision by construction: use the free value here
+        case = dict(case, delta_spec=dict(case["delta_spec"], kind="free"))
     ref, est, c = _setup(case)
-    if c["unit"] != "f":
-        # path/angle selection under a rigid motion can flip a borderline >= decision: use frames here,
-        # the other units get their invariance through the definition check on moved data
-        c["unit"] = "f"
-        c["delta"] = 1 + int(case["delta_spec"]["frames"]) % max(1, ref.n - 1)
     M1 = rm.se3(gen.rot_matrix(case["M1"]["rot"]), np.asarray(case["M1"]["t"], dtype=float) * float(case["M1"]["mag"]))
     M2 = rm.se3(gen.rot_matrix(case["M2"]["rot"]), np.asarray(case["M2"]["t"], dtype=float) * float(case["M2"]["mag"]))
     ref2, est2 = ref.left(M1), est.left(M2)
+    if c["unit"] != "f":
+        # path/angle selection under a rigid motion can flip a borderline >= decision: the selection is only compared
+        # when no decision of the selection rule is within rounding of its threshold, before and after the motion
+        src, src2 = (ref, ref2) if c["from_ref"] else (est, est2)
+        if _selection_ambiguous(src, c) or _selection_ambiguous(src2, c):
+            c["unit"] = "f"
+            c["delta"] = 1 + int(case["delta_spec"]["frames"]) % max(1, ref.n - 1)
     scale = 4 * max(trajgen.coord_scale(ref, est), trajgen.coord_scale(ref2, est2))
     relation = c["relation"]
     if relation == "point_distance_error_ratio":
@@ -156,12 +199,19 @@ def sub_metamorphic(case):
         base, ids = run(ref, est)
     except filters.FilterException:
         return "no_pairs"
-    moved, ids2 = run(ref2, est2)
+    try:
+        moved, ids2 = run(ref2, est2)
+    except filters.FilterException:
+        raise Mismatch("no pairs found any more after rigid motions of reference and estimate (before: pair ends %s)" % ids, observed="ids", law="rigid_motion")
     if ids2 != ids:
         raise Mismatch("pair ends changed under rigid motions: %s -> %s" % (ids, ids2), observed="ids", law="rigid_motion")
     compare_values(moved, base, relation, scale, "RPE after independent rigid motions of ref and est", law="rigid_motion")
-    same, _ = run(ref, ref.left(M2))
+    try:
+        same, _ = run(ref, ref.left(M2))
+    except filters.FilterException:
+        return "no_pairs_on_copy"
     compare_values(same, np.zeros(len(same)), relation, scale, "RPE of a rigidly moved copy must vanish", law="same_motion")
+    return "%s/%s" % (c["unit"], "all" if c["all_pairs"] else "cons")
 
 
 def sub_reuse(case):
@@ -270,7 +320,7 @@ st_bulk = st.fixed_dictionaries({
 
 SUBS = [
     Sub("definition", sub_definition, st_case, 2500, 80000, nontrivial=lambda c: True),
-    Sub("metamorphic", sub_metamorphic, st_meta, 500, 20000, nontrivial=lambda c: True),
+    Sub("metamorphic", sub_metamorphic, st_meta, 1500, 40000, nontrivial=lambda c: True),
     Sub("unequal", sub_unequal, st_uneq, 200, 5000),
     Sub("reuse", sub_reuse, st_meta, 300, 10000, nontrivial=lambda c: True),
     Sub("bulk", sub_bulk, st_bulk, 12, 300, shards_quick=4),
@@ -294,7 +344,14 @@ def sub_cli(case):
         extra.append("--all_pairs")
     if o["pairs_from_reference"]:
         extra.append("--pairs_from_reference")
-    c, d, ref, est, files, out, out_zip = run_cli_case(case, "rpe", extra)
+    try:
+        c, d, ref, est, files, out, out_zip = run_cli_case(case, "rpe", extra)
+    except ValueError as e:
+        if o["relation"] == "point_distance_error_ratio" and "zero-size array" in str(e):
+            # every selected pair has zero reference distance and is skipped: there are no values to judge (evo then
+            # fails in numpy while computing statistics of nothing - not a statement of this property)
+            return "ratio_all_pairs_skipped"
+        raise
     o = c["opts"]
     fmt = c["fmt"]
     exp = pipeline.process_reference(c, fmt, ref, est)
@@ -369,6 +426,8 @@ def sub_cli(case):
             except Bad as b:
                 raise Mismatch("evo_rpe: the stored pair chain %s is not the selection on the processed %s: %s" % (
                     pairs[:8], "reference" if src_is_ref else "estimate", b.msg), observed="pair_selection", clause=b.clause)
+    if stored_idx is not None and not o.get("project") and not (chain0 and unit != "m") and not ratio_skips:
+        _check_cli_pairs_general(o, arch, ref, est, rsel, esel, stored_idx, got, relation)
     if (chain0 or (stored_idx is None and unit == "f" and not o["all_pairs"])) and not ratio_skips:
         n = nvals + 1
         pairs = [(i, i + 1) for i in range(n - 1)]
@@ -402,6 +461,136 @@ def sub_cli(case):
     return "cli/%s/%s/%s" % (fmt, unit, "all" if o["all_pairs"] else "cons")
 
 
+def _expected_pairs_general(o, P, Rs):
+    """pairs by the definition on the processed source trajectory; None if some decision is inside the ambiguity margin"""
+    unit = o["delta_unit"]
+    N = len(P)
+    if unit == "f":
+        dl = int(o["delta"])
+        if o["all_pairs"]:
+            return [(i, i + dl) for i in range(N) if i + dl < N]
+        return [(k, k + dl) for k in range(0, N, dl) if k + dl < N]
+    if unit == "m":
+        w = rm.step_lengths(P)
+        delta = float(o["delta"])
+        margin = 1e-9 * max(math.fsum(w), delta, 1.0)
+    else:
+        delta = float(o["delta"]) if unit == "r" else math.radians(float(o["delta"]))
+        w = pairsel.consecutive_angles(Rs)
+        margin = 1e-7
+    if not o["all_pairs"]:
+        pairs = []
+        i = 0
+        acc = 0.0
+        for k in range(N - 1):
+            acc = math.fsum(w[i:k + 1])
+            if abs(acc - delta) <= margin:
+                return None
+            if acc >= delta:
+                pairs.append((i, k + 1))
+                i = k + 1
+        return pairs
+    tol = delta * float(o["delta_tol"])
+    pairs = []
+    if unit == "m":
+        for i in range(N - 1):
+            d = [abs(math.fsum(w[i:j]) - delta) for j in range(i + 1, N)]
+            best = min(d)
+            if abs(best - tol) <= margin or sum(1 for v in d if v <= best + margin) > 1:
+                return None
+            if best <= tol:
+                pairs.append((i, i + 1 + d.index(best)))
+        return pairs
+    for i in range(N):
+        for j in range(i + 1, N):
+            a = rm.rot_angle_between(Rs[i], Rs[j])
+            if abs(a - (delta - tol)) <= margin or abs(a - (delta + tol)) <= margin:
+                return None
+            if delta - tol <= a <= delta + tol:
+                pairs.append((i, j))
+    return pairs
+
+
+def _check_cli_pairs_general(o, arch, ref, est, rsel, esel, stored_idx, got, relation):
+    """metres chains and every all-pairs mode: the pair END poses stored in the archive must be the ends of the pairs
+    the definition selects on the processed source trajectory (skipped when a decision is within rounding of a
+    threshold), and the stored values the definition on those pairs of the processed trajectories"""
+    A = np.asarray(arch["arrays"].get("alignment_transformation_sim3", np.eye(4)), dtype=float)
+    s = float(np.cbrt(np.linalg.det(A[:3, :3])))
+    Rot = A[:3, :3] / s
+    Pr_p = ref[1][rsel]
+    Rr_p = [rm.quat_to_R(q) for q in ref[2][rsel]]
+    Pe_p = (A[:3, :3] @ est[1][esel].T).T + A[:3, 3]
+    Re_p = [Rot @ rm.quat_to_R(q) for q in est[2][esel]]
+    src = (Pr_p, Rr_p) if o["pairs_from_reference"] else (Pe_p, Re_p)
+    if o["delta_unit"] == "m" and not o["all_pairs"]:
+        # the chain may start at any pose up to the first one that reaches delta from the beginning (C10); the archive
+        # only shows pair ends, so every admissible start of the first pair is tried
+        w = rm.step_lengths(src[0])
+        delta = float(o["delta"])
+        margin = 1e-9 * max(math.fsum(w), delta, 1.0)
+        ends = list(stored_idx[1:])
+        if not ends or any(b <= a for a, b in zip(ends, ends[1:])):
+            raise Mismatch("stored pair ends %s are not increasing" % ends[:10], observed="stored_traj")
+        cands = []
+        why = None
+        for st0 in range(0, ends[0]):
+            pairs = list(zip([st0] + ends[:-1], ends))
+            try:
+                pairsel.check_chain(pairs, w, delta, margin, "path")
+                cands.append(pairs)
+            except Bad as b:
+                why = b
+        if not cands:
+            raise Mismatch("evo_rpe (consecutive, delta %r m): stored pair ends %s are not the ends of a valid chain on the processed %s: %s" % (
+                o["delta"], ends[:12], "reference" if o["pairs_from_reference"] else "estimate", why.msg), observed="pair_selection", clause=why.clause)
+        exps = cands
+    else:
+        exp = _expected_pairs_general(o, *src)
+        if exp is None:
+            return
+        exps = None
+    if exps is not None:
+        last = None
+        for exp in exps:
+            try:
+                return _check_cli_values_general(o, exp, Pr_p, Rr_p, Pe_p, Re_p, s, got, relation)
+            except Mismatch as m:
+                last = m
+        raise last
+    if not exp:
+        raise Mismatch("evo_rpe stored %d values although no pose pair of the processed %s realises delta %r %s" % (
+            len(got), "reference" if o["pairs_from_reference"] else "estimate", o["delta"], o["delta_unit"]), observed="pair_selection", clause="none_exists")
+    ends = [j for i, j in exp]
+    if list(stored_idx[1:]) != ends:
+        raise Mismatch("evo_rpe (%s, delta %r %s, tol %r): stored pair end poses %s, the definition on the processed %s selects pairs %s" % (
+            "all pairs" if o["all_pairs"] else "consecutive", o["delta"], o["delta_unit"], o["delta_tol"], list(stored_idx[1:])[:12],
+            "reference" if o["pairs_from_reference"] else "estimate", exp[:12]), observed="pair_selection", clause="general")
+    return _check_cli_values_general(o, exp, Pr_p, Rr_p, Pe_p, Re_p, s, got, relation)
+
+
+def _check_cli_values_general(o, exp, Pr_p, Rr_p, Pe_p, Re_p, s, got, relation):
+    rsel = esel = Pr_p
+    ref_poses = [rm.se3(Rr_p[k], Pr_p[k]) for k in range(len(rsel))]
+    est_poses = [rm.se3(Re_p[k], Pe_p[k]) for k in range(len(esel))]
+    vals, kept = rm.rpe_values(ref_poses, est_poses, exp, relation)
+    fact = 1.0
+    cu = o.get("change_unit")
+    if cu:
+        if relation in ("translation_part", "point_distance"):
+            fact = pipeline.UNIT_FACT[cu]
+        elif relation == "rotation_angle_rad":
+            fact = 180.0 / math.pi
+        elif relation == "rotation_angle_deg":
+            fact = math.pi / 180.0
+    scale = 4 * (max(float(np.abs(Pr_p).max()), float(np.abs(Pe_p).max())) + 1.0) * max(1.0, s)
+    for k in range(len(vals)):
+        tol = tol_for(relation, scale, vals[k]) * abs(fact) * 16 + 1e-9 * abs(vals[k] * fact)
+        if not abs(got[k] - vals[k] * fact) <= tol:
+            raise Mismatch("stored RPE value %d is %r, the definition on pair %s of the processed trajectories gives %r (%s)" % (
+                k, float(got[k]), exp[k], float(vals[k] * fact), relation), observed="value", relation=relation)
+
+
 def _mk_rpe_cli(base, relation, unit, dsel, all_pairs, from_ref, tol):
     c = dict(base)
     o = dict(base["opts"])
@@ -426,7 +615,7 @@ def _mk_rpe_cli(base, relation, unit, dsel, all_pairs, from_ref, tol):
 
 
 from vf.checks.c01 import st_cli as _st_ape_cli
-st_cli = st.builds(_mk_rpe_cli, _st_ape_cli,
+st_cli = st.builds(_mk_rpe_cli, _st_ape_cli(),
                    st.sampled_from(sorted(pipeline.REL_CLI) + ["point_distance_error_ratio"]), st.sampled_from(["f", "f", "r", "d", "m"]),
                    st.fixed_dictionaries({"frames": st.integers(1, 4), "m": st.sampled_from([0.05, 1.0, 30.0]), "r": st.sampled_from([0.05, 0.3, 1.0])}),
                    st.booleans(), st.booleans(), st.sampled_from([0.1, 0.5]))
